@@ -145,6 +145,9 @@ func runC15(c *core.Ctx) {
 				c.Violate("synthetic-exception", "the synthetic exception of a stack-less error carries a stack", t.String())
 			}
 			dom := string(errors.GetDomain(e))
+			if md := model.Annotations(t).Domain; dom != md {
+				c.Violate("domain/"+st.name, "the error's domain differs from the model (outermost visible domain layer)", fmt.Sprintf("%s\n%q vs %q", t, dom, md))
+			}
 			for _, x := range ev.Exception {
 				if x.Module != dom {
 					c.Violate("module/"+st.name, "exception module is not the error's domain", fmt.Sprintf("%s\n%q vs %q", t, x.Module, dom))
